@@ -102,6 +102,7 @@ func (w *Workers) check(count int, value func() (interface{}, error)) {
 
 func (w *Workers) worker() {
 	for {
+		verifPoint(verifWorkersLoopTop)
 		w.mutex.Lock()
 		if len(w.queue) == 0 || w.count > w.target {
 			w.count--
